@@ -103,6 +103,9 @@ def run_virtual(case):
 def run_files(case):
     positions, binlen = case["positions"], case["binlen"]
     tracks = make_tracks(positions, [tuple(o) for o in case["opts"]])
+    if case.get("titles") == "dup":
+        for t in tracks:
+            t["title"] = "SAME"
     with scratch_dir("c03") as d:
         with open(os.path.join(d, "disc.bin"), "wb") as f:
             f.write(Q.bin_bytes(binlen))
@@ -117,6 +120,19 @@ def run_files(case):
     exp = {}
     for t, (a, b) in zip(titles_of(tracks), expected_tracks(positions, binlen)):
         exp[t + ".wav"] = (2, 44100, Q.frames_bytes(a, b - a))
+    if case.get("titles") == "dup":
+        # equal titles: the file names are the tool's business, but there is one file per track and together they
+        # hold exactly the track windows
+        want = sorted(Q.frames_bytes(a, b - a) for a, b in expected_tracks(positions, binlen))
+        got = []
+        for p_, b_ in res["files"].items():
+            w = riff.validate(b_)
+            if w.errors:
+                return False, "invalid-wav", {"path": p_, "errors": w.errors[:2]}
+            got.append(w.data)
+        if sorted(got) != want or len(res["reported"]) != len(want):
+            return False, "dup-titles-tracks-lost", {"tracks": len(want), "files": sorted(res["files"]), "reported": res["reported"]}
+        return True, f"files-ok-dup:{len(want)}", None
     errs = tree.compare_export(exp, res["files"], res["reported"])
     if errs:
         return False, "files-mismatch", {"errors": errs[:3]}
@@ -188,6 +204,10 @@ class Check(CheckBase):
                                   "binlen": Q.SECTOR * positions[-1] + r})
         if self.quick:
             files = files[::3]
+        for positions in ([0, 2], [1, 75, 76], [0, 1, 2, 150]):
+            for r in (0, 3):
+                files.append({"kind": "files", "positions": positions, "opts": [["one", True]] * len(positions),
+                              "binlen": Q.SECTOR * positions[-1] + r, "titles": "dup"})
         out += self.chunk(cases, 150)
         out += self.chunk(files, 8)
         return out
